@@ -272,6 +272,12 @@ class Interp:
     # ---------------- calls
     def call(self, fn, args, kwargs):
         from . import models
+        try:
+            summary = self.session.contracts.get(fn)
+        except TypeError:
+            summary = None
+        if summary is not None and not is_repo_function(fn):
+            return summary(self, args, kwargs)
         m = models.lookup(fn)
         if m is not None:
             r = m(self, args, kwargs)
